@@ -138,7 +138,7 @@ func genC12(w *out.W, tier string) {
 		maxLen = 5
 	}
 	w.Exhaust = true
-	w.Rule = fmt.Sprintf("exhaustive: every file of 1..%d statements over a 3-statement alphabet x every partial progress k (stop by failing statement k+1) x every edit (same/change/insert/delete/swap at every index, truncate to every length) x {no,one} following file; history = apply (fails at k+1), edit+rehash, apply, apply. Non-trivial = the edited file differs from the original and k>=1 (the hash comparison loop runs); distinct by (old,k,new,second)", maxLen)
+	w.Rule = fmt.Sprintf("exhaustive: every file of 1..%d statements over a 3-statement alphabet x every partial progress k (stop by failing statement k+1) x every edit (same/change/insert/delete/swap at every index, truncate to every length) x {no,one} following file; history = apply (fails at k+1), edit+rehash, apply, apply; + double failure (n=3: fails at k+1, file unchanged / failing statement replaced / statement inserted, fails again at k2+1, then every edit). Non-trivial = the edited file differs from the original and k>=1 (the hash comparison loop runs); distinct by (old,k,new,second)", maxLen)
 	id := 0
 	for n := 1; n <= maxLen; n++ {
 		for _, old := range lists(n) {
@@ -180,6 +180,7 @@ func genC12(w *out.W, tier string) {
 			}
 		}
 	}
+	genC12Double(w, tier, &id)
 }
 
 func execEvents(evs []string) []string {
@@ -211,6 +212,10 @@ func oracleC12(w *out.W, id string, old, new []string, k int, second bool, res [
 		if !strings.HasPrefix(res[1].Outcome, "history:") {
 			w.Violation(id, "not-refused", fmt.Sprintf("applied prefix changed but run returned %s: %s", res[1].Outcome, desc))
 			return
+		}
+		// the error names the first edited applied statement (cumulative hashes differ from there on)
+		if want := fmt.Sprintf("history:%d", firstDiff(old, new, k)+1); res[1].Outcome != want {
+			w.Violation(id, "wrong-attribution", fmt.Sprintf("refused with %s, the first edited applied statement is %s: %s", res[1].Outcome, want, desc))
 		}
 		if len(execEvents(res[1].Events)) != 0 {
 			w.Violation(id, "executed-on-refuse", "statements executed although history changed: "+desc)
